@@ -515,3 +515,59 @@ def run_compressor_lockstep(ctx, tie, cd, cases, private=True, flush_oracle=True
             ctx.sample(dict(kind="compress-history", params=c["params"], input_hex=c["x"].hex(), ops=c["ops"],
                             calls=["%(offered)d:%(cap)d:%(dir)d->%(consumed)d:%(produced)d:%(ret)s" % r for r in recs]))
     return hist
+
+
+def run_store_tie(ctx, rng, tie, n):
+    """StoreStream.v (the concrete block compressor of C02_store_stream_round_trip / _end_to_end) against the real code:
+    on incompressible input, with a checksum and without the content size field, ZSTD_compressStream2 must emit byte for
+    byte what the buffering model around the store compressor emits, for the same call history."""
+    cases = []
+    sizes = [0, 1, 2, 100, 1000, 1023, 1024, 1025, 2047, 2048, 2049, 5000, 20000, 70000, 131071, 131072, 131073, 262145]
+    for i in range(n):
+        size = rng.choice(sizes if i >= 3 else sizes[-4:])
+        p = {"level": rng.choice([1, 1, 2, 3]), "checksum": 1, "contentSize": 0}
+        if rng.random() < 0.7:
+            p["windowLog"] = rng.choice([10, 10, 11, 12, 14, 17, 20, 23, 27])
+        if rng.random() < 0.25:
+            p["maxBlockSize"] = rng.choice([1024, 1025, 2000, 4096, 65536])
+        r = rng.random()
+        if r < 0.1:
+            p["stableIn"] = 1
+        cases.append(dict(id="s%d" % i, x=rng.randbytes(size), params=p, ops=gen_chistory(rng)))
+    iout, ierrs = tie.impl(["Y %s %s %s %s" % (c["id"], codec.params_str(c["params"]), codec.hx(c["x"]), c["ops"]) for c in cases])
+    if ierrs:
+        ctx.violation(dict(kind="harness-crash", detail=ierrs[:2]), what="c02_stream crashed during a store-tie history: %r" % (ierrs[0],))
+    mlines = []
+    for c in cases:
+        r = iout.get(c["id"])
+        if r is None or not r.startswith("OK "):
+            continue
+        t = r.split(" ")
+        c["out"] = codec.unhx(t[1])
+        recs = parse_krecords(t[2] if len(t) > 2 else "-")
+        if any(isinstance(st.norm_ret(x["ret"]), tuple) for x in recs):
+            continue
+        c["recs"] = recs
+        kfl = "si" if c["params"].get("stableIn") else "-"
+        calls = ["%d:%d:%d:%d:%d:-" % (x["offered"], x["cap"], x["dir"], x["windowLog"], x["maxBlockSize"]) for x in recs]
+        mlines.append("YS %s %s %s %s" % (c["id"], kfl, codec.hx(c["x"]), ";".join(calls)))
+    mout, merrs = tie.model(mlines)
+    if merrs:
+        ctx.violation(dict(kind="model-crash", detail=merrs[:2]), what="the extracted store-stream model crashed: %r" % (merrs[0],), no_input=True)
+    nok = 0
+    for c in cases:
+        if "recs" not in c:
+            continue
+        m = mout.get(c["id"])
+        mo = codec.unhx(m.split(" ")[1]) if m is not None and m.startswith("OK ") else None
+        if mo != c["out"]:
+            k = next((j for j, (a, b) in enumerate(zip(mo or b"", c["out"])) if a != b), min(len(mo or b""), len(c["out"])))
+            ctx.violation(dict(kind="store-tie", params=c["params"], ops=c["ops"], input_hex=c["x"].hex()[:200000], first_difference=k,
+                               implementation_hex=c["out"].hex()[:4000], model_hex=(mo or b"").hex()[:4000], model=str(m)[:200]),
+                          what="ZSTD_compressStream2 on incompressible input and the store-stream model (StoreStream.v) emit different bytes: first difference at byte %d "
+                               "(implementation %d bytes, model %s bytes; params %s, ops %s)" % (k, len(c["out"]), len(mo) if mo is not None else "no", c["params"], c["ops"][:80]))
+        else:
+            nok += 1
+            ctx.cov["traces_validated_against_impl"] += 1
+        ctx.count(("STORE", len(c["recs"]) > 1, c["out"][-1:] != b"" and len(c["x"]) > 131072), nontrivial=len(c["recs"]) > 1)
+    return nok
